@@ -961,7 +961,18 @@ def ft13(F, R):
             if op not in ("Lt", "Le", "Gt", "Ge", "Eq"):
                 continue
             # RESERVED_ENTRIES by name, or the literal 2 compared with a cluster number (the `.0` of a ClusterId)
-            is_cluster_no = lambda t: (lambda y: y[0] == "place" and [e for e in y[2] if isinstance(e, str) and e != "*"][-1:] == ["0"])(strip_refs(t))
+            def is_cluster_no(t):
+                """the `.0` of a ClusterId: of a ClusterId-typed local / parameter, or of a field whose declared type is ClusterId"""
+                y = strip_refs(t)
+                if y[0] != "place":
+                    return False
+                fs_ = [e for e in y[2] if isinstance(e, str) and e != "*" and not e.startswith("as:")]
+                if fs_[-1:] != ["0"]:
+                    return False
+                if len(fs_) == 1:
+                    b_ = strip_refs(y[1])
+                    return b_[0] in ("var", "arg") and isinstance(b_[1], int) and "ClusterId" in fn.locals[b_[1]]["ty"]
+                return any(f_["name"] == fs_[-2] and "ClusterId" in f_["ty"] for a_ in F.adts.values() for v_ in a_["variants"] for f_ in v_["fields"])
             is_res = lambda t, other=None: t[0] == "c" and t[1] == 2 and ((t[2] and t[2].endswith("RESERVED_ENTRIES")) or (not t[2] and other is not None and is_cluster_no(other)))
             if not (is_res(a, z) or is_res(z, a)):
                 continue
